@@ -255,6 +255,26 @@ def make_view_variant(dst: str, mode: str) -> int:
   p = Project(REPO, expand=VIEW_MODES[mode])
   for mod in p.modules.values():
     rel = os.path.relpath(mod.path, REPO)
+    # names carried over from another module by the helper expansion are
+    # looked up in that module when they are used
+    syn = {a: q for a, q in mod.imports.items() if a.startswith('_x_')}
+    if syn:
+      class _Q(ast.NodeTransformer):
+
+        def visit_Name(self, node):
+          q = syn.get(node.id)
+          if q is None or not isinstance(node.ctx, ast.Load):
+            return node
+          cands = [m for m in p.modules if q == m or q.startswith(m + '.')]
+          m = max(cands, key=len) if cands else q.rpartition('.')[0]
+          expr = f"__import__('importlib').import_module({m!r})"
+          rest = q[len(m) + 1:]
+          if rest:
+            expr += '.' + rest
+          return ast.copy_location(ast.parse(expr, mode='eval').body, node)
+
+      mod.tree = _Q().visit(mod.tree)
+      ast.fix_missing_locations(mod.tree)
     new = ast.unparse(mod.tree) + '\n'
     compile(new, rel, 'exec')
     with open(os.path.join(dst, rel), 'w') as f:
